@@ -41,6 +41,7 @@ import (
 	"github.com/codenotary/immudb/embedded/htree"
 	"github.com/codenotary/immudb/embedded/logger"
 	"github.com/codenotary/immudb/embedded/multierr"
+	"github.com/codenotary/immudb/embedded/simhook"
 	"github.com/codenotary/immudb/embedded/tbtree"
 	"github.com/codenotary/immudb/embedded/watchers"
 	"github.com/codenotary/immudb/pkg/helpers/semaphore"
@@ -971,6 +972,9 @@ func (s *ImmuStore) DeleteIndex(prefix []byte) error {
 
 	s.logger.Infof("deleting index path: '%s' ...", indexer.path)
 
+	if simhook.Enabled {
+		simhook.IORemoveAll(indexer.path)
+	}
 	return os.RemoveAll(indexer.path)
 }
 
